@@ -37,6 +37,8 @@ def run(ctx):
     ctx.guard(safe_sqrt, ctx)
     ctx.guard(tensorid.run_identities, ctx, "W1/T7-differentiated-helper-identities", ["inv", "detpIm1", "det", "deviator", "norm_of_deviator_squared"])
     ctx.guard(C17.o7, _Prefixed(ctx, "W2/"))
+    from .common import settings_wiring
+    ctx.guard(settings_wiring, ctx, "W2/T5-settings-wiring", "optimism.ScalarRootFind")
     ctx.guard(slots, ctx)
     ctx.guard(no_gradient_cut, ctx)
     ctx.trust("jax.grad / jacfwd / value_and_grad / hessian differentiate w.r.t. the positional argument given by argnums (default 0)")
@@ -264,6 +266,7 @@ def variants(repo):
         Variant("safe_sqrt nonzero tangent at 0", Mth, sub("                       lambda x: 0.,", "                       lambda x: 1.,"), "W1/T5-safe-sqrt-rule"),
         Variant("safe_sqrt guard strict", Mth, sub("    df = v * lax.cond( x <= 0,", "    df = v * lax.cond( x < 0,"), "W1/T5-safe-sqrt-rule"),
         Variant("safe_sqrt derivative factor", Mth, sub("                       lambda x: 0.5/f,", "                       lambda x: 1.0/f,"), "W1/T5-safe-sqrt-rule"),
+        Variant("root finder tolerances swapped in get_settings", S, sub("    return Settings(max_iters, x_tol, r_tol)", "    return Settings(max_iters, r_tol, x_tol)"), "W2/T5-settings-wiring"),
         Variant("tangent solve", S, sub("lambda g, y: y/g(1.0)", "lambda g, y: y*g(1.0)"), "W2/T5-custom-root-wiring"),
         Variant("value_and_grad wrt U", Me, sub_in_func("create_mechanics_functions", "    output_constitutive = value_and_grad(output_lagrangian, 1)", "    output_constitutive = value_and_grad(output_lagrangian, 0)"), "W3/T5-derivative-slots"),
         Variant("flow stress wrt eqpsOld", H, sub("    return HardeningModel(hardening, jax.grad(hardening))", "    return HardeningModel(hardening, jax.grad(hardening, 1))"), "W3/T5-derivative-slots"),
